@@ -8,7 +8,7 @@ FACT_MODULES = ['Precis.Facts.Prof']
 
 def correspondence(ctx):
     corr = Corr()
-    impl = rle_check(ctx, corr, ['std_upper', 'std_lower', 'std_tolower'])
+    impl = rle_check(ctx, corr, ['std_upper', 'std_lower', 'std_tolower', 'case_p'], ['case_p'])
     mapped = [c for s_, e, v in impl['std_tolower'] if v != 'id' for c in range(s_, e + 1)]
     upper = set(c for s_, e, v in impl['std_upper'] if v == '1' for c in range(s_, e + 1))
     corr.count('mapped_code_points', len(mapped))
